@@ -42,7 +42,8 @@ PROPS = {
                                                          ('acos', -65700, 65700, 1, 1), ('acos', -65700, 65700, 1, 0)]}}},
     'C07': {'chunk': 20000, 'quick_cfgs': ['clang++-O1-c++17-san', 'g++-O2-c++20-san', 'clang++-O2-c++20'],
             'thorough_cfgs': [c['id'] for c in CONFIGS if c['san']] + ['g++-O2-c++17', 'clang++-O3-c++20', 'g++-O0-c++17-abacus']},
-    'C08': {'chunk': 20000, 'xcfg': True, 'gen_as': 'C07',
+    'C08': {'chunk': 20000, 'xcfg': True, 'gen_as': 'C07', 'gen_tier': {'thorough': 'quick'},   # thorough = the full configuration matrix on the quick-size corpus
+           
             'quick_cfgs': ['g++-O2-c++17', 'clang++-O2-c++20', 'g++-O0-c++17-abacus', 'clang++-O0-c++2b', 'g++-O3-c++20', 'clang++-O1-c++17-abacus'],
             'thorough_cfgs': [c['id'] for c in CONFIGS if not c['san']]},
     'C17': {'chunk': 20000, 'simulate': {'quick': 4000, 'thorough': 150000}},
